@@ -1,6 +1,7 @@
 import GinjaxVerif.Lemmas.C07Build
 import GinjaxVerif.Lemmas.C07Train
 import GinjaxVerif.Lemmas.C07Shift
+import GinjaxVerif.Lemmas.C07ShiftUNet
 import GinjaxVerif.Properties.C08
 import GinjaxVerif.Properties.C09
 import Mathlib.Algebra.Order.Field.Rat
@@ -35,8 +36,8 @@ transforming with the type `(k, p)` it is stored under (`MI.Equiv y' (act g y)`)
 
 Further: `hC07_discharged` / `trained_net_equivariant` (the hypothesis `hC07` of C09 instantiated:
 training cannot break the equivariance of these networks), `net_shift` / `resnet_shift` /
-`dilresnet_shift` (cyclic translations along toroidal axes), `unet_shift_multiple_statement`
-(+ `_partial`), and non-vacuity examples (a concrete configuration satisfying every hypothesis for
+`dilresnet_shift` (cyclic translations along toroidal axes), `unet_shift_multiple` (translations by
+multiples of the total pooling factor), and non-vacuity examples (a concrete configuration satisfying every hypothesis for
 every `g ∈ B_2`, a net with pooling satisfying `WellFormed` and `PoolGeneric`).
 
 The forward pass is tied to the code structurally (layer plan `trace`, diffed against the recorded
@@ -283,42 +284,29 @@ theorem convBlock_shift (F : Fns R d) (θ : ParamFam R) (id : List Nat) (a : Blo
     ∃ y', eval F (mkConvBlock θ id a) (roll s x) = some y' ∧ MI.Equiv y' (roll s y) :=
   net_shift F s _ (shiftOK_mkConvBlock θ id a hpad hld hM hn) x hx hN y hy
 
-/-- the U-Net without down-sampling (`num_downsamples = 0`: total pooling factor 1) commutes with
-every cyclic translation: the proved part of `unet_shift_multiple_statement` -/
-theorem unet_shift_multiple_partial (F : Fns R d) (θ : ParamFam R) (c : NetArgs R d)
-    (h : NetShiftOK c) (h0 : c.numDown = 0) (s : Pix d) (x : MI R d) (hx : x.Consistent)
-    (hN : ∀ j, 0 < x.dims j) (y : MI R d) (hy : eval F (mkUNet θ c) x = some y) :
-    ∃ y', eval F (mkUNet θ c) (roll s x) = some y' ∧ MI.Equiv y' (roll s y) := by
-  refine net_shift F s _ ?_ x hx hN y hy
-  unfold mkUNet
-  rw [h0]
-  refine ⟨shiftOK_chain _ ?_, trivial, ⟨rfl, rfl, rfl, h.odd, h.outNodup⟩⟩
-  intro n hn
-  obtain ⟨j, _, rfl⟩ := List.mem_map.1 hn
-  exact shiftOK_mkConvBlock θ _ _ rfl rfl h.odd h.midNodup
+/-- **translation clause, general form with a schedule**: rolling the input by `s` rolls the output by
+`s'` whenever `ShiftSched` relates them (pooling divides the translation, the up-convolution doubles
+it) -/
+theorem net_shift_sched (F : Fns R d) (net : Net R d) (s s' : Pix d) (x : MI R d) (hx : x.Consistent)
+    (hs : ShiftSched x.torus net x.dims s s') (y : MI R d) (hy : eval F net x = some y) :
+    ∃ y', eval F net (roll s x) = some y' ∧ MI.Equiv y' (roll s' y) := by
+  obtain ⟨y', h1, h2⟩ := eval_shift_sched F net x (roll s x) y s s' hx (srel_roll s x) hs hy
+  exact ⟨y', h1, (srel_iff_equiv_roll s' y' y).1 h2⟩
+
+/-- **the U-Net commutes with the cyclic translations by multiples of its total pooling factor
+`2^num_downsamples`** (along the toroidal axes; on inputs whose extents are positive multiples of that
+factor) — for every parameter value, any bank, no uniqueness of pooling maxima needed.  The zero padding
+`(1,1)` of the image-dilated up-convolution coincides with the interleaved zeros of the periodic
+dilated signal (`up_srcIdx_shift`), max pooling looks at the same patch in the same order
+(`maxPool_sh`). -/
+theorem unet_shift_multiple (F : Fns R d) (θ : ParamFam R) (c : NetArgs R d) (h : NetShiftOK c)
+    (hup : c.upM = 2) (t : Pix d) (x : MI R d) (hx : x.Consistent) (hN : ∀ j, 0 < x.dims j)
+    (hdiv : ∀ j, 2 ^ c.numDown ∣ x.dims j) (y : MI R d) (hy : eval F (mkUNet θ c) x = some y) :
+    ∃ y', eval F (mkUNet θ c) (roll (fun j => t j * (2 : Int) ^ c.numDown) x) = some y' ∧
+      MI.Equiv y' (roll (fun j => t j * (2 : Int) ^ c.numDown) y) :=
+  net_shift_sched F _ _ _ x hx (mkUNet_schedSame θ x.torus c h hup t x.dims hN hdiv).1 y hy
 
 end Translations
-
-/-- **translation clause of the U-Net (full statement, NOT proved)**: on toroidal inputs whose extents
-are positive multiples of `2^num_downsamples`, the U-Net commutes with the cyclic translations by
-multiples of its total pooling factor `2^num_downsamples`, wherever it evaluates.
-
-What is missing for a proof by the same induction as `net_shift`: (1) a shift lemma for the
-lhs-dilated up-convolution — image dilation 2, zero padding `(1,1)`, filter side 2 (C06's
-`layer_shift` / `conv_shift` require `TorusAxis`: wrap padding and `ld = 1`; the zero padding of the
-up-path coincides with the interleaved zeros of the periodic dilated signal, which is why the clause
-holds, but that index identity is not proved); (2) the relational (extensional-input) forms of C08's
-`maxPool_roll` / `pool_shift_multiple` along the levels, with the translation halved at every
-level; (3) the (pointwise) shift lemma for `concat`.  Proved part: `unet_shift_multiple_partial`
-(`num_downsamples = 0`), `net_shift` for everything without pooling. -/
-def unet_shift_multiple_statement : Prop :=
-  ∀ (R : Type) [Field R] [LinearOrder R] (d : Nat) (F : Fns R d) (θ : ParamFam R) (c : NetArgs R d),
-    NetShiftOK c → c.upM = 2 →
-    ∀ (t : Pix d) (x : MI R d), x.Consistent → (∀ j, x.torus j = true) → (∀ j, 0 < x.dims j) →
-      (∀ j, 2 ^ c.numDown ∣ x.dims j) →
-      ∀ y, eval F (mkUNet θ c) x = some y →
-        ∃ y', eval F (mkUNet θ c) (roll (fun j => t j * (2 ^ c.numDown : Nat)) x) = some y' ∧
-          MI.Equiv y' (roll (fun j => t j * (2 ^ c.numDown : Nat)) y)
 
 /-- the plans of the constructors satisfy `PlanOK` / `WellFormedPlan` -/
 theorem planOK_of_wfSame [CommRing R] (g : SP d) (net : Net R d) (hnp : NoPool net)
